@@ -133,7 +133,11 @@ def oracle(run, cfg, idnt, calls, p0, fixed):
         if rec["wd"] else np.ones_like(xk)
     want_res = (rec["y"][seg] - want_fit) * w if rec["wd"] \
         else rec["y"][seg] - want_fit
-    if not same(rec["res"][seg], want_res):
+    # (up to rounding: the bit-exact comparison is the model correspondence's)
+    sc_ = max(float(np.nanmax(np.abs(want_res))) if want_res.size else 0.0,
+              1e-300)
+    if np.asarray(rec["res"][seg]).shape != want_res.shape or not np.all(
+            np.abs(rec["res"][seg] - want_res) <= 1e-12 * sc_):
         fail("residual column is not (data - fit) * weights",
              "C04_residual_column")
     if rec["wd"]:
